@@ -21,9 +21,15 @@ comptime function; a comptime function whose body raises a Python exception; a f
 failing type checking; a function whose comptime *expression* calls a Guppy function
 (fails checking with "Python error").
 
-Operations: check(d), compile(d) (= compile_function / GuppyDefinition.compile for the
-struct) for every d.  ALL sequences up to length L (quick 2, thorough 3); no
-deduplication of states (no justified canonical state).
+Operations: check(d), compile(d) (= compile_function) for every d.  No deduplication of
+states (no justified canonical state).  Bounds (each enumerated completely):
+  quick     ALL sequences of length <= 2 over the 18 operations of the first 9
+            definitions (plain, busy, gen_caller, mono, use_struct, closure, ct_raises,
+            bad_type, py_call);
+  thorough  ALL sequences of length <= 2 over all 22 operations, and ALL sequences of
+            length <= 3 over the 14 operations of the 7-definition core pool CORE_DEFS.
+Forking compiler images costs ~65-75 ms per history node on the verification VM and does
+not parallelise there (see vlib/histx.py), hence these bounds and sequential forking.
 
 Oracle (same run, no recorded baseline): the observation of the last operation of every
 history must equal the observation of the ONE-STEP history consisting of that operation
@@ -174,13 +180,15 @@ def py_call(x: int) -> int:
 #   check-error   GuppyError while checking (so compile fails the same way)
 #   compile-error check ok, GuppyError only when compiled as entry point
 #   compile-exc   check ok, the user's own Python exception escapes compile
-# the first QUICK_DEFS definitions form the quick tier's pool (fork cost ~0.15 s per history node)
+# the first QUICK_DEFS definitions form the quick tier's pool (a forked history node costs
+# ~65-75 ms and forking does not parallelise on the verification VM: ~13 nodes/s)
 POOL = [
-    ("plain", "ok"), ("busy", "ok"), ("gen_caller", "ok"), ("closure", "ok"), ("ct", "ok"),
-    ("ct_raises", "compile-exc"), ("py_call", "check-error"), ("mono", "compile-error"),
-    ("use_struct", "ok"), ("mono_closure_caller", "ok"), ("bad_type", "check-error"),
+    ("plain", "ok"), ("busy", "ok"), ("gen_caller", "ok"), ("mono", "compile-error"),
+    ("use_struct", "ok"), ("closure", "ok"), ("ct_raises", "compile-exc"),
+    ("bad_type", "check-error"), ("py_call", "check-error"),
+    ("ct", "ok"), ("mono_closure_caller", "ok"),
 ]
-QUICK_DEFS = 8
+QUICK_DEFS = 9
 # definitions that are in the module (and reachable as dependencies) but are not
 # operated on directly, to keep the history tree affordable: Pt (through use_struct),
 # ident (through gen_caller), mono_caller, mono_closure (through mono_closure_caller)
@@ -339,12 +347,15 @@ def _strip_idx(line: str) -> str:
     return re.sub(r'^m\d+ n\d+ ', "", re.sub(r'"parent": \d+', '"parent": _', line))
 
 
+_OPMAP: list[int] = []           # explorer operation index -> index into OPS
+
+
 def step(root, hist, op) -> dict:
-    return observe(op, full=False)
+    return observe(_OPMAP[op], full=False)
 
 
 def _ref_step(root, hist, op) -> dict:
-    return observe(op, full=True)
+    return observe(_OPMAP[op], full=True)
 
 
 # ---------------------------------------------------------------- driver
@@ -373,47 +384,82 @@ def _fork_workers(ctx) -> int:
     # the total throughput does NOT grow with the number of concurrent forking processes
     # (15 nodes/s with 1, 12 with 2, 9.5 with >= 4: page-table work is serialised), so
     # concurrent unit processes only burn CPU: explore sequentially.
-    return int(os.environ.get("VERIF_FORK_WORKERS", "8"))
+    return max(1, int(os.environ.get("VERIF_FORK_WORKERS", "1")))
+
+
+# definitions whose operations form the depth-3 tree of the thorough tier: the ones that
+# can carry state into later operations (counter consumers busy/ct, failing operations
+# ct_raises/py_call/bad_type, the twice-lowered CFG with a recursive closure) + the
+# function whose HUGR is sensitive to the temporaries counter
+CORE_DEFS = ("plain", "busy", "ct", "ct_raises", "py_call", "mono_closure_caller", "bad_type")
+
+
+def phases(quick: bool) -> list[tuple[str, list[int], int]]:
+    """[(label, operation indices into OPS, depth)].  Every phase explores ALL sequences
+    over its operations up to its depth."""
+    if quick:
+        return [("quick-pool", list(range(2 * QUICK_DEFS)), 2)]
+    core = [i for i, (_w, nme) in enumerate(OPS) if nme in CORE_DEFS]
+    return [("full-pool", list(range(len(OPS))), 2), ("core-pool", core, 3)]
 
 
 def run(ctx) -> dict:
     from vlib import histx
-    depth = 2 if ctx.quick else 3
-    n = 2 * QUICK_DEFS if ctx.quick else len(OPS)
+    plan = phases(ctx.quick)
+    used_ops = sorted({i for _l, ops, _d in plan for i in ops})
+    n = len(used_ops)
+    depth = max(d for _l, _o, d in plan)
 
     # 1. references: the one-step histories, each in its own fresh image of the root
+    _OPMAP[:] = used_ops
     ref_res = histx.explore([None], n, 1, init, _ref_step, workers=_fork_workers(ctx), split=1)
     REF.clear()
     for _ri, h, obs in ref_res.records:
-        REF[h[0]] = obs
+        REF[used_ops[h[0]]] = obs
     expect = dict(POOL)
     pool_problems = []
     for op, obs in sorted(REF.items()):
         what, name = OPS[op]
         bad = _expect_ok(expect[name], what, obs)
         if bad:
-            pool_problems.append(f"{op_str(op)}: {bad}")
-    for p in pool_problems:
+            pool_problems.append((op, f"{op_str(op)}: {bad}"))
+    for op, p in pool_problems:
         # a well-typed pool member that does not compile to valid HUGR in a FRESH session
         # (or a failing one that fails differently than constructed) is not a history
         # effect; it is surfaced as its own class so that it cannot go unnoticed.
-        name = p.split(":")[0]
-        ctx.violation(f"fresh-session-outcome-unexpected:{name}",
-                      f"one-step history [{name}] in a fresh session: {p}",
-                      {"history": [i for i in range(n) if op_str(i) == name], "pool_sanity": True})
+        ctx.violation(f"fresh-session-outcome-unexpected:{op_str(op)}",
+                      f"one-step history [{op_str(op)}] in a fresh session: {p}",
+                      {"history": [op], "pool_sanity": True})
 
-    # 2. all histories up to `depth`; children compare against REF (inherited by fork)
-    res = histx.explore([None], n, depth, init, step, workers=_fork_workers(ctx), split=1)
+    # 2. per phase: all histories up to its depth; children compare against REF
+    #    (inherited by fork).  Histories are re-keyed to indices into OPS.
+    by_node: dict[tuple, dict] = {}
+    executed = forks = maximal = 0
+    overlap_same = 0
+    for _label, ops, d in plan:
+        _OPMAP[:] = ops
+        res = histx.explore([None], len(ops), d, init, step, workers=_fork_workers(ctx), split=1)
+        executed += res.executed
+        forks += res.forks
+        maximal += len(ops) ** d
+        for _ri, h, obs in res.records:
+            hh = tuple(ops[i] for i in h)
+            if hh in by_node:
+                # the same history executed again in another phase (other forked processes)
+                if by_node[hh]["sha"] != obs["sha"]:
+                    raise RuntimeError(f"harness: history {hist_str(hh)} observed differently by two executions")
+                overlap_same += 1
+            else:
+                by_node[hh] = obs
+    records = sorted(by_node.items(), key=lambda kv: (len(kv[0]), kv[0]))
 
     kinds: dict[str, int] = {}
     mism = 0
     distinct_sha = set()
     compile_nodes = fail_after_fail = ok_after_fail = renumbered_nodes = 0
     tmp_offsets: dict[str, set] = {}
-    by_node = {h: obs for _ri, h, obs in res.records}
     samples = []
-    recs = sorted(res.records, key=lambda r: (len(r[1]), r[1]))
-    for _ri, h, obs in recs:
+    for h, obs in records:
         op = h[-1]
         what, name = OPS[op]
         kinds[f"{what}:{obs['kind']}"] = kinds.get(f"{what}:{obs['kind']}", 0) + 1
@@ -445,18 +491,21 @@ def run(ctx) -> dict:
             samples.append({"history": hist_str(h), "kind": obs["kind"], "sha": obs["sha"],
                             "equals_fresh": obs["sha"] == REF[op]["sha"]})
 
-    nontrivial = sum(1 for _ri, h, _o in res.records if len(h) >= 2)
+    nontrivial = sum(1 for h, _o in records if len(h) >= 2)
     cov = {
-        "states": len(res.records),                 # distinct history-prefix nodes executed
-        "transitions": res.executed,                # operations executed (incl. prefix re-runs)
-        "traces_validated_against_impl": n ** depth,   # maximal histories completed
-        "evaluations": len(res.records),
+        "states": len(records),                     # distinct history-prefix nodes executed
+        "transitions": executed,                    # operations executed (incl. prefix re-runs)
+        "traces_validated_against_impl": maximal,   # maximal histories completed
+        "evaluations": len(records),
         "distinct_nontrivial": nontrivial,
         "rule": "a node is non-trivial iff its history has >= 2 operations (the last operation runs in a session that already checked/compiled something)",
         "samples": samples,
         "pool_definitions": n // 2,
         "operations": n,
         "history_depth": depth,
+        "phases": [{"label": l, "operations": len(o), "depth": d, "definitions": sorted({OPS[i][1] for i in o})}
+                   for l, o, d in plan],
+        "histories_executed_twice_identical": overlap_same,
         "reference_one_step_histories": len(REF),
         "compile_steps_compared": compile_nodes,
         "compile_steps_with_renumbered_generated_names": renumbered_nodes,
@@ -466,8 +515,8 @@ def run(ctx) -> dict:
         "steps_after_failed_previous_step_ok": ok_after_fail,
         "steps_after_failed_previous_step_failing": fail_after_fail,
         "tmp_counter_offsets_seen_before_compile": {k: sorted(v) for k, v in sorted(tmp_offsets.items())},
-        "pool_sanity_problems": pool_problems,
-        "forks": res.forks + ref_res.forks,
+        "pool_sanity_problems": [p for _op, p in pool_problems],
+        "forks": forks + ref_res.forks,
         "explorer": "histx: fork per history branch; root image = module loaded, nothing checked/compiled",
         "exhaustive": True,
     }
